@@ -20,6 +20,7 @@
 #
 
 import re, sys, os.path
+from decimal import Decimal
 sys.path.append(os.path.dirname(__file__))
 from odf.style import Style, TextProperties, ListLevelProperties
 from odf.text import ListStyle,ListLevelStyleNumber,ListLevelStyleBullet
@@ -47,12 +48,22 @@ def styleFromString(name, specifiers, delim, spacing, showAllLevels):
     specArray = specifiers.split(delim)
     return styleFromList( name, specArray, spacing, showAllLevels )
 
+def _lengthNumber(num, text, factor):
+    """ The number of an ODF length, which has no exponent: str() of a float
+    switches to exponent notation below 1e-4 and from 1e16 on, and gives 'inf'
+    beyond the range of a float; those are written out from the decimal text. """
+    s = str(num * factor)
+    if text is not None and ('e' in s or 'n' in s):
+        s = format(Decimal(text) * factor, 'f')
+    return s
+
 def styleFromList( styleName, specArray, spacing, showAllLevels):
     bullet = ""
     numPrefix = ""
     numSuffix = ""
     numberFormat = ""
     cssLengthNum = 0
+    cssLengthText = None
     cssLengthUnits = ""
     numbered = False
     displayLevels = 0
@@ -62,7 +73,8 @@ def styleFromList( styleName, specArray, spacing, showAllLevels):
     cssLengthPattern = re.compile("([-+]?(?:[0-9]+\\.?[0-9]*|\\.[0-9]+)(?:[eE][-+]?[0-9]+)?)\\s*([a-zA-Z]+)?")
     m = cssLengthPattern.search( spacing )
     if (m != None):
-        cssLengthNum = float(m.group(1))
+        cssLengthText = m.group(1)
+        cssLengthNum = float(cssLengthText)
         if (m.lastindex == 2):
             cssLengthUnits = m.group(2).lower()
     i = 0
@@ -96,8 +108,8 @@ def styleFromList( styleName, specArray, spacing, showAllLevels):
         else:
             lls = ListLevelStyleBullet(level=(i+1),bulletchar=bullet[0])
         llp = ListLevelProperties()
-        llp.setAttribute('spacebefore', str(cssLengthNum * (i+1)) + cssLengthUnits)
-        llp.setAttribute('minlabelwidth', str(cssLengthNum) + cssLengthUnits)
+        llp.setAttribute('spacebefore', _lengthNumber(cssLengthNum, cssLengthText, i+1) + cssLengthUnits)
+        llp.setAttribute('minlabelwidth', _lengthNumber(cssLengthNum, cssLengthText, 1) + cssLengthUnits)
         lls.addElement( llp )
         listStyle.addElement(lls)
         i += 1
